@@ -429,28 +429,33 @@ def importWord (wbytes wbits : Nat) (w : List Nat) (s : ASt) : ASt :=
   let s1 := (w.take wbytes).foldl (fun s byte => accumulate 8 byte s) s
   if wbits ≠ 0 then accumulate wbits (w.getD wbytes 0 % 2 ^ wbits) s1 else s1
 
-/-- `mpz_import` (import.c:40): the normalised limbs of the result -/
+/-- `mpz_import` (import.c:51-166): the `zsize` limbs stored at `zp` before `done:` — by one of the three fast
+    paths (:60-90; `align` is the address of `data` modulo 8) or by the generic loop (:92-166) -/
+def mpz_import_fill (ptr : Bool) (count : Nat) (order : Int) (size : Nat) (endian : Int) (nail : Nat)
+    (align : Nat) (data : List Nat) : List Nat :=
+  let numb := 8 * size - nail
+  let endian := if endian = 0 then (-1 : Int) else endian
+  if nail = 0 ∧ size = 8 ∧ align = 0 ∧ order = -1 ∧ endian = -1 then
+    bytesToLimbs (data.take (8 * count))                                -- MPN_COPY
+  else if nail = 0 ∧ size = 8 ∧ align = 0 ∧ order = -1 ∧ endian = 1 then
+    (bytesToLimbs (data.take (8 * count))).map bswap                    -- MPN_BSWAP
+  else if nail = 0 ∧ size = 8 ∧ align = 0 ∧ order = 1 ∧ endian = -1 then
+    (bytesToLimbs (data.take (8 * count))).reverse                      -- MPN_REVERSE
+  else
+    let wbytes := numb / 8
+    let wbits := numb % 8
+    let ws := if ptr then unlayoutPtr order endian size count ((numb + 7) / 8) data
+              else unlayout order endian size count data
+    let s := ws.foldl (fun s w => importWord wbytes wbits w s) { limb := 0, lbits := 0, out := [] }
+    let out := if s.lbits ≠ 0 then s.limb :: s.out else s.out
+    out.reverse
+
+/-- `mpz_import` (import.c:40): the normalised limbs of the result (`done:` MPN_NORMALIZE, :168-171, on every path) -/
 def mpz_import_core (ptr : Bool) (count : Nat) (order : Int) (size : Nat) (endian : Int) (nail : Nat)
     (align : Nat) (data : List Nat) : List Nat :=
   let numb := 8 * size - nail
   let zsize := (count * numb + 63) / 64
-  let endian := if endian = 0 then (-1 : Int) else endian
-  let zp :=
-    if nail = 0 ∧ size = 8 ∧ align = 0 ∧ order = -1 ∧ endian = -1 then
-      bytesToLimbs (data.take (8 * count))                                -- MPN_COPY
-    else if nail = 0 ∧ size = 8 ∧ align = 0 ∧ order = -1 ∧ endian = 1 then
-      (bytesToLimbs (data.take (8 * count))).map bswap                    -- MPN_BSWAP
-    else if nail = 0 ∧ size = 8 ∧ align = 0 ∧ order = 1 ∧ endian = -1 then
-      (bytesToLimbs (data.take (8 * count))).reverse                      -- MPN_REVERSE
-    else
-      let wbytes := numb / 8
-      let wbits := numb % 8
-      let ws := if ptr then unlayoutPtr order endian size count ((numb + 7) / 8) data
-                else unlayout order endian size count data
-      let s := ws.foldl (fun s w => importWord wbytes wbits w s) { limb := 0, lbits := 0, out := [] }
-      let out := if s.lbits ≠ 0 then s.limb :: s.out else s.out
-      out.reverse
-  normalize (zp.take zsize)
+  normalize ((mpz_import_fill ptr count order size endian nail align data).take zsize)
 
 def mpz_import := mpz_import_core false
 def mpz_import_ptr := mpz_import_core true
